@@ -343,7 +343,7 @@ def cases(tier):
           PerSample(3, 2), PerSample(4, 2), PerSample(2, 1)]
     if tier == "thorough":
         cs += [SegTree(8, "min"), SegTree(16, "sum"), PerAdd(6, 4), PerAdd(8, 3), PerAdd(7, 7, "one"),
-               PerUpdate(4, 3), PerUpdate(6, 2), PerSample(6, 2), PerSample(8, 2), PerSample(5, 3)]
+               PerUpdate(4, 3), PerUpdate(6, 2), PerSample(6, 1), PerSample(8, 1), PerSample(5, 2)]
     return cs
 
 
@@ -399,7 +399,8 @@ class SegTreeFP(Case):
         while len(level) > 1:
             level = [level[k] + level[k + 1] for k in range(0, len(level), 2)]
         obs.append(Ob("total-is-the-pairwise-sum-of-the-stored-priorities", feq(tree.sum(), level[0])))
-        obs.append(Ob("twin/total-is-unchanged-by-the-update", feq(tree.sum(), _pairwise(leaves)), expect="sat"))
+        if cap <= 2:      # a floating-point witness for the twin is only cheap for the smallest tree
+            obs.append(Ob("twin/total-is-unchanged-by-the-update", feq(tree.sum(), _pairwise(leaves)), expect="sat"))
         return obs
 
 
